@@ -396,6 +396,8 @@ def core_programs():
     P.append(_rh_prog(three, [rh90, _req("dist", "Qc", ["le"], [6 * Q], "soft")]))
     P.append(_rh_prog(three, [rh90, _req("dist", "Qc", ["le"], [6 * Q], "terminate")]))
     P.append(_rh_prog(three, [rh90, _req("dist", "absQmk_c", ["lt"], [2 * Q, 3 * Q], "record")]))
+    # a termination condition that can never hold is not an inconsistent scenario
+    P.append(_rh_prog(three, [rh90, _req("dist", "Qc", ["le"], [6 * Q]), _req("rh", "absQ_c", ["lt"], [-30], "terminate")]))
     # headings across the +-180 degree cut: ego at 180, other at -90 is a relative heading of +90
     wrap = [[pbox(0, 0, 2, 2), 180], [pbox(3, 0, 5, 2), -90], [pbox(7, 0, 9, 2), 90]]
     P.append(_rh_prog(wrap, [rh90, _req("dist", "Qc", ["le"], [20 * Q])]))
@@ -430,7 +432,7 @@ def core_programs():
 def lattice_programs(tier, seed):
     rnd = random.Random(seed * 7919 + 5)
     n = dict(cont=8, box=2, vis=2, rh_clean=8, rh_trig=6) if tier == "quick" else \
-        dict(cont=100, box=6, vis=16, rh_clean=100, rh_trig=60)
+        dict(cont=70, box=6, vis=12, rh_clean=70, rh_trig=45)
     progs = []
 
     def add(p):
